@@ -64,6 +64,18 @@ impl Ctx {
             checks: BTreeSet::new(),
         }
     }
+    /// Shortens the budget to `fraction` of what is left; returns the old deadline for `restore`.
+    pub fn narrow(&mut self, fraction: f64) -> Instant {
+        let old = self.deadline;
+        let now = Instant::now();
+        if old > now {
+            self.deadline = now + (old - now).mul_f64(fraction);
+        }
+        old
+    }
+    pub fn restore(&mut self, deadline: Instant) {
+        self.deadline = deadline;
+    }
     pub fn alive(&self) -> bool {
         Instant::now() < self.deadline
     }
